@@ -177,6 +177,13 @@ def rule_b(ctx, cr):
         sw = [c for c in f.calls_to("std::mem::swap")
               if {True} == {True for a in c.args if f.describe(a).endswith(".cont")}
               and any(f.describe(a).endswith(".state") for a in c.args)]
+        # the same save written as `self.cont = mem::replace(&mut self.state, X)`
+        for c in f.calls_to("std::mem::replace"):
+            if f.describe(c.args[0]).endswith(".state") and \
+                    (f.cplace(c.dest).endswith(".cont") or any(
+                        "mem::replace" in (f.describe_value(v) or "")
+                        for b, s_, v in f.field_stores("cont"))):
+                sw.append(c)
         if not ctx.check(len(sw) == 1, "C13.b", "%s/save-swap" % name, f.span,
                          "one swap saving state into cont"):
             continue
